@@ -197,7 +197,7 @@ var unitStringsBytes = []any{"1kB", "1kB24B", "2 MB", "1024B", "1.5kB", "5 bytes
 // extremeNumbers are values at the edges of the numeric domains, in the representations they occur in.
 func extremeNumbers() []any {
 	return []any{
-		int64(math.MaxInt64), int64(math.MinInt64), uint64(math.MaxUint64), uint64(1 << 63),
+		int64(math.MaxInt64), int64(math.MinInt64), uint64(math.MaxUint64), uint64(1 << 63), uint(math.MaxUint64), uint(1 << 63),
 		float64(1 << 63), float64(-(1 << 63)), float64(1<<53 + 2), float64(1 << 62),
 		0.5, -0.5, 2.5, 1e300, -1e300, math.NaN(), math.Inf(1), math.Inf(-1), float32(0.25), float32(math.Inf(1)),
 		math.Copysign(0, -1),
@@ -626,6 +626,8 @@ func RawValues(s *Spec) []any {
 			v2 := gv[len(gv)-1]
 			out = append(out, map[any]any{"1": gv[0], int64(1): v2}, map[any]any{"a": gv[0], MyStr("a"): v2},
 				map[any]any{"1": gv[0], int64(1): v2, int64(2): gv[0]}, map[any]any{"a": gv[0], MyStr("a"): v2, "b": gv[0]})
+			// the same in a concretely typed raw map (its keys are distinct strings, yet spell one number)
+			out = append(out, map[string]any{"1": gv[0], "01": v2}, map[string]any{"1": gv[0], "+1": v2, "2": gv[0]}, map[string]string{"1": "x", "01": "y"})
 			if ks, ok := gk[0].(string); ok {
 				out = append(out, map[string]any{ks: gv[0]})
 			}
